@@ -782,3 +782,99 @@ def io_origin(rep, lib, rid="C16-IO-ORIGIN"):
                       "anywhere else it reports a failure that did not happen", c.where())
     r.ok("census", "no constructed io::Error in %d bodies" % len(lib.bodies), "", nontrivial=False)
     return r
+
+
+BUF_ADD = ("::push", "::push_str", "::extend", "::extend_from_slice", "::push_back", "::insert", "::append",
+           "::write_all", "::write", "::resize")
+BUF_CLEAR = ("::clear", "::truncate", "mem::take", "mem::replace", "::drain", "::split_off")
+
+
+def reader_state(rep, lib, rid="C01-READER-STATE"):
+    """What the reader remembers from one value to the next. On the pinned tree that is the byte source, the one
+    byte of look-ahead, the position and the end-of-input flag - nothing of the *content* of a value. A field added to
+    the reader is state that survives the end (and the failure) of a value: a counter that one path forgets to
+    restore, a token buffer that an error return leaves filled, and the next value is read differently because of the
+    one before (out(A.B) != out(A).out(B); digits of a broken string prepended to the next number). Accepted: a
+    capacity hint (common.hint_fields), and a scratch buffer that every function which appends to it empties first
+    (a clear / truncate / take of that field dominates every append in the same function), so that nothing written for
+    an earlier value can be read for a later one."""
+    from lib import specialize
+    r = rep.rule(rid, "the reader carries nothing of a value's content from one value to the next: its fields are the "
+                 "byte source, the look-ahead byte, the position and the end flag; a new field is a capacity hint or a "
+                 "scratch buffer emptied at the start of every function that fills it", floor=4,
+                 analysis="A7 field census against sa/tables/known_fields.txt + A2 dominance of the emptying call over "
+                          "every appending call, per function as written")
+    adt = lib.adts.get("reader::Reader")
+    if not adt or len(adt["variants"]) != 1:
+        r.missing("reader::Reader")
+        return
+    known = {k.rsplit("::", 1)[1] for k in specialize.known_fields() if k.startswith("reader::Reader::")}
+    if not known:
+        r.missing("known fields of reader::Reader (sa/tables/known_fields.txt)")
+        return
+    hints = common.hint_fields(lib, "reader::Reader")
+    raw = lib.raw_view() if hasattr(lib, "raw_view") else lib
+    for fi, f in enumerate(adt["variants"][0]["fields"]):
+        key = "Reader.%s" % f["name"]
+        if f["name"] in known:
+            r.ok(key, "field of the pinned reader (%s)" % f["ty"], "", nontrivial=False)
+            continue
+        if fi in hints:
+            r.ok(key, "capacity hint", "", nontrivial=False)
+            continue
+        ty = f["ty"].replace(" ", "")
+        if not ty.startswith(("std::vec::Vec<", "std::string::String", "std::collections::VecDeque<")):
+            r.bad(key, "the reader has a new field `%s: %s` that lives across values and is neither a capacity hint nor "
+                  "a scratch buffer: what is read for one value can depend on the values (or errors) before it"
+                  % (f["name"], f["ty"]), "")
+            continue
+        fname = "f%d" % fi
+        filled = 0
+        view = lib.bodies          # analysed view: helpers new to the rules are part of their callers
+        info = {}                  # body name -> (body, undominated appends, clears)
+        for name, b in sorted(view.items()):
+            refs = {}       # local -> block of `&mut self.field`
+            for bb, idx, place, rv, _ in b.assignments():
+                if rv["k"] == "ref" and not place["p"]:
+                    p = [x for x in rv["place"]["p"] if x != "deref"]
+                    base_ty = (b.local_ty(rv["place"]["l"]) or "").replace("&mut ", "").replace("&", "")
+                    if p and p[0] == fname and base_ty.startswith("reader::Reader"):
+                        refs[place["l"]] = bb
+            adds, clears = [], []
+            for c in b.calls:
+                if not c.args or c.args[0].get("place", {}).get("l") not in refs:
+                    continue
+                nm = c.name or ""
+                if nm.endswith(BUF_CLEAR) or any(x in nm for x in ("mem::take", "mem::replace")):
+                    clears.append(c)
+                elif nm.endswith(BUF_ADD) or "fmt::Write" in nm or "io::Write" in nm:
+                    adds.append(c)
+            filled += len(adds)
+            if adds or clears:
+                info[name] = (b, [a for a in adds if not any(b.dominates(c.bb, a.bb) and c.bb != a.bb for c in clears)],
+                              clears)
+        # a function that appends to a buffer it has not emptied needs the buffer empty on entry: every call of it
+        # must come after an emptying call in the caller, or the caller needs the same of its callers (3 levels)
+        needs = {n: (n, v[1][0]) for n, v in info.items() if v[1]}
+        problem = None
+        for depth in range(4):
+            nxt = {}
+            for n, (ofn, site) in needs.items():
+                callers = [(cn, cb, c) for cn, cb in view.items() for c in cb.calls if (c.name or "") == n]
+                if not callers or depth == 3:
+                    problem = problem or (info[ofn][0], site, ofn, n)
+                    continue
+                for cn, cb, c in callers:
+                    cl = info.get(cn, (cb, [], []))[2]
+                    if not any(cb.dominates(x.bb, c.bb) and x.bb != c.bb for x in cl):
+                        nxt.setdefault(cn, (ofn, site))
+            needs = nxt
+            if not needs:
+                break
+        if problem:
+            b, a, ofn, root = problem
+            r.bad(key, "the reader's new buffer `%s` is appended to in %s (line %s) without having been emptied "
+                  "first on the way there (followed up to %s): bytes left in it by an earlier value - one that ended in "
+                  "an error return, say - become part of this one" % (f["name"], ofn, a.line, root), b.where(a.bb))
+        else:
+            r.ok(key, "scratch buffer: emptied before each of the %d append(s)" % filled, "")
